@@ -142,7 +142,11 @@ class SimStore(MemoryStore):
             sh.log("get", key, "miss")
             return None
         start, stop = _normalize_byte_range_index(value, byte_range)
-        out = prototype.buffer.from_buffer(value[start:stop])
+        part = value[start:stop]
+        if sh.copy_on_read:
+            # a real store hands the caller freshly allocated bytes; the in-memory dict would hand out a view
+            part = type(part).from_array_like(part.as_array_like().copy())
+        out = prototype.buffer.from_buffer(part)
         sh.log("get", key, "hit", value)
         return out
 
@@ -153,6 +157,7 @@ class SimStore(MemoryStore):
         if not isinstance(value, Buffer):
             raise TypeError("SimStore.set(): value must be a Buffer")
         value = type(value).from_array_like(value.as_array_like().copy())
+        sh.bytes_retained += len(value)  # memory that stands in for the storage medium, not task memory
         ov = sh.overlay
         if only_if_absent:
             present = (ov is not None and ov.get(key) is not None) or (
@@ -338,6 +343,8 @@ class _Shared:
         self.clock = None  # callable -> virtual time
         self.seq = None  # callable -> global sequence number
         self.tracing = True
+        self.copy_on_read = False
+        self.bytes_retained = 0
 
     def log(self, op, key, outcome, value=None, job=None):
         if not self.tracing:
